@@ -16,8 +16,10 @@ mod verif_kani_updates {
         let val = vec![1.5f64, 2.5];
         let c: Option<f64> = if kani::any() { Some(0.5) } else { None };
         let cs = match c { Some(x) => x, None => 1.0 };
-        let z = zip(idx.iter(), val.iter());
-        let r = z.update_vector(&mut v, &vscale, c);
+        // through the owned (indices, values) tuple form, which forwards to the zip form: both impls are on the path
+        let t = (idx, val);
+        let r = t.update_vector(&mut v, &vscale, c);
+        let (idx, val) = t;
         kani::cover!(r.is_ok());
         kani::cover!(r.is_err());
         // an error is returned exactly when some index is out of range (entries before it may already be written)
@@ -46,8 +48,10 @@ mod verif_kani_updates {
         let c: Option<f64> = if kani::any() { Some(0.5) } else { None };
         let cs = match c { Some(x) => x, None => 1.0 };
         let fac = [16.0f64, 32.0, 64.0];      // lscale[row] * rscale[col] of the three stored entries
-        let z = zip(idx.iter(), val.iter());
-        let r = z.update_matrix(&mut m, &l, &r_, c);
+        // through the owned (indices, values) tuple form, which forwards to the zip form: both impls are on the path
+        let t = (idx, val);
+        let r = t.update_matrix(&mut m, &l, &r_, c);
+        let (idx, val) = t;
         assert!(r.is_err() == (i0 >= 3 || i1 >= 3));
         assert!(m.nzval.len() == 3 && m.colptr[0] == 0 && m.colptr[1] == 2 && m.colptr[2] == 3 && m.rowval[0] == 0 && m.rowval[1] == 1 && m.rowval[2] == 0);
         let mut k = 0;
